@@ -454,6 +454,51 @@ def pretty_token_sample(cdir, rdir, limit=None):
     return len(mods), bad
 
 
+def compile_all_sample(cdir, rdir):
+    """Auxiliary (schedule-free): for every corpus and spec module the output translated with default options and with -m
+    (symbol prefixing) must compile file by file against its generated header (gcc -fsyntax-only)."""
+    from concurrent.futures import ThreadPoolExecutor
+    xl, _ = build_translator_plain()
+    mods = []
+    for lst in ("corpus.txt", "sweep.txt"):
+        with open(os.path.join(cdir, lst)) as f:
+            for line in f:
+                w = line.split()
+                if w and w[0] not in mods and w[0] != "m905.wasm":
+                    mods.append(w[0])
+    def work(m):
+        res = []
+        for tag, opts in (("default", []), ("-m", ["-m"])):
+            wd = os.path.join(rdir, "cc-%s-%s" % (safe_name(m), safe_name(tag)))
+            shutil.rmtree(wd, ignore_errors=True)
+            os.makedirs(wd)
+            try:
+                r = subprocess.run([xl] + opts + [os.path.join(cdir, m), "x.c"], cwd=wd, stdout=subprocess.PIPE, stderr=subprocess.PIPE, timeout=300)
+                if r.returncode != 0:
+                    continue        # totality is C10's business
+                for fn in sorted(os.listdir(wd)):
+                    if not fn.endswith(".c"):
+                        continue
+                    c = subprocess.run(["gcc", "-std=gnu89", "-w", "-fsyntax-only", "-DWASM_THREADS_PTHREADS", "-I" + os.path.join(REPO, "w2c2"), "-I" + wd, fn],
+                                       cwd=wd, stdout=subprocess.PIPE, stderr=subprocess.STDOUT, timeout=600)
+                    if c.returncode != 0:
+                        msg = c.stdout.decode(errors="replace")
+                        em = re.search(r"error: ([^\n]*)", msg)
+                        first = re.sub(r"[‘'\"][^’'\"]*[’'\"]", "Q", em.group(1)) if em else "compile-error"
+                        res.append({"idx": 0, "args": tag, "error": "module %s translated with '%s': %s" % (m, tag, msg[-700:]), "class": safe_name(first)[:60]})
+                        break
+            except subprocess.TimeoutExpired:
+                res.append({"idx": 0, "args": tag, "error": "module %s translated with '%s': compile timed out" % (m, tag), "class": "compile-timeout"})
+            finally:
+                shutil.rmtree(wd, ignore_errors=True)
+        return res
+    bad = []
+    with ThreadPoolExecutor(max_workers=NCPU) as ex:
+        for r in ex.map(work, mods):
+            bad += r
+    return len(mods), bad
+
+
 def variant_sample(seed, exe, cdir, n, rdir):
     """Auxiliary: the canonical output of sampled groups must be byte-identical across translator build
     configurations (default / without pthreads / bundled getopt+dirname+basename+strdup)."""
@@ -563,6 +608,12 @@ def check(prop, tier, seed, replay=None):
         aux = {"canonical_outputs_compiled": done, "compile_failures": len(bad)}
         nm, compared, bbad = behaviour_sample(seed, 6 if tier == "quick" else 80, rdir)
         aux.update({"behaviour_modules": nm, "behaviour_variant_comparisons": compared, "behaviour_failures": len(bbad), "behaviour_variants": [v for v, _ in VARIANT_OPTS]})
+        ncc, cbad = compile_all_sample(cdir, rdir)
+        aux.update({"modules_compiled_default_and_prefixed": ncc, "compile_failures_all_modules": len(cbad)})
+        seen_cls = set(b["class"] for b in bad)
+        for b in cbad:
+            if b["class"] not in seen_cls or len(seen_cls) < 4:
+                seen_cls.add(b["class"]); bad.append(b)
         ntok, tbad = pretty_token_sample(cdir, rdir)
         aux.update({"pretty_vs_compact_modules_token_compared": ntok, "pretty_vs_compact_token_mismatches": len(tbad)})
         for b in tbad[:6]:
